@@ -173,6 +173,11 @@ structure GraphOK (g : Graph) (results : List Key) : Prop where
   depsNodup : ∀ k deps, g.get? k = some (.task deps) → deps.Nodup
   resultsIn : ∀ r ∈ results, ∃ nd, g.get? r = some nd
 
+/-- keys reachable from the request along dependencies -/
+inductive Reach (g : Graph) (results : List Key) : Key → Prop where
+  | base {r : Key} : r ∈ results → Reach g results r
+  | step {j k : Key} : Reach g results j → k ∈ nodeDeps g j → Reach g results k
+
 /-- `d` has been visited and is a data node: its value is in the cache -/
 def CD (g : Graph) (s : InitSt α) (d : Key) : Prop := d ∈ s.seen ∧ isData g d
 
@@ -195,6 +200,7 @@ structure IInv (g : Graph) (results : List Key) (P : Params α) (s : InitSt α) 
     (k ∈ s.seen ∧ isTask g k ∧ w ≠ [] ∧ ∀ d, d ∈ w ↔ (d ∈ nodeDeps g k ∧ ¬ CD g s d))
   waitCover : ∀ k ∈ s.seen, isTask g k → (∃ d ∈ nodeDeps g k, ¬ CD g s d) → ∃ w, s.waiting.get? k = some w
   dtsLive : ∀ d l, s.dependents.get? d = some l → d ∈ s.seen ∨ l ≠ []
+  reach : ∀ k, (k ∈ s.seen ∨ k ∈ s.stack) → Reach g results k
 
 theorem sadd_ne_nil (k : Key) (l : List Key) : sadd k l ≠ [] := by
   intro h
